@@ -358,6 +358,15 @@ def attach_loops(qual, fn, loops, ex):
     """loops: {ordinal: LoopSpec}. Anchors are (function, ordinal in source order) and, if given, the header text."""
     nodes = loops_in_order(fn)
     for ordn, spec in loops.items():
+        if isinstance(ordn, tuple):
+            # a loop that is not a statement: ("sumcomp",) = the function's one sum([f(x) for x in xs], []), read as an accumulation loop
+            hits = [n for n in ast.walk(fn) if isinstance(n, ast.Call) and isinstance(n.func, ast.Name) and n.func.id == "sum" and len(n.args) == 2 and isinstance(n.args[0], ast.ListComp)]
+            if len(hits) != 1:
+                raise Unsupported(f"anchor-lost: {qual} has {len(hits)} expressions sum([...], start), contract expects one")
+            if spec.header is not None and ast.unparse(hits[0].args[0].generators[0].iter) != spec.header:
+                raise Unsupported(f"anchor-lost: the comprehension of {qual} iterates over `{ast.unparse(hits[0].args[0].generators[0].iter)}`, contract expects `{spec.header}`")
+            ex.loops[("sumcomp", qual)] = spec
+            continue
         if ordn >= len(nodes):
             raise Unsupported(f"anchor-lost: loop #{ordn} of {qual} not found")
         node = nodes[ordn]
